@@ -68,6 +68,7 @@ FramingOK ==
     /\ Ev.kind \in {"cl", "chunked", "eof", "fcgi"}
     /\ (Ev.kind = "fcgi" <=> cfg.proto = "fcgi")
     /\ (Ev.kind = "fcgi" => (Ev.endreq = 1 /\ Ev.stdoutend = 1 /\ Ev.padok))
+    /\ Get(Ev, "badid", 0) = 0            \* every record carries the id of the request being answered
     /\ (Ev.kind = "chunked" => cfg.proto = "http11")
     /\ (cfg.proto = "scgi" => Ev.kind = "eof")
     /\ (Ev.keep => Ev.kind # "eof")
